@@ -53,8 +53,10 @@ bool set_string_kind(V&& dst, const std::string& s, uint8_t kind, StringArena& a
       return r;
     }
     case SK_JSONSTRING_LINKED:
+      // a JsonString declared Linked is kept by address like a const char*: its size is not stored, so (like every
+      // zero-terminated kind) it cannot carry an embedded NUL - those strings go through std::string
       if (has_nul) break;
-      return dst.set(AJ::JsonString(arena.keep(s), AJ::JsonString::Linked));
+      return dst.set(AJ::JsonString(arena.keep(s), s.size(), AJ::JsonString::Linked));
     case SK_STRING_VIEW: {
       char* p = (char*)malloc(s.size() ? s.size() : 1); memcpy(p, s.data(), s.size());
       bool r = dst.set(std::string_view(p, s.size()));
@@ -153,6 +155,7 @@ struct AjExec {
   // what the last operation reported (C05 judges these under injected failures)
   bool last_has_ret = false, last_ret = true, last_has_bound = false, last_bound = true;
   int last_code = -1;
+  bool exact_kinds = false;   // C14: hand every string over as exactly the requested source kind (no shortcuts through other kinds)
 
   AjExec(int ndocs, int nrefs, bool shared_allocator = false) {
     if (shared_allocator) allocs.emplace_back(new SpyAllocator);
@@ -186,6 +189,7 @@ struct AjExec {
   bool do_set(const Target& t, bool kc, const MVal& val, uint8_t strkind, bool& bound) {
     bool ret = false; bound = true;
     unsigned direct = strkind % 4;
+    if (exact_kinds && val.k == MVal::Str) direct = 99;
     if (val.k == MVal::Int && !val.neg && val.mag <= 1000000 && direct == 0) { at(t, kc, [&](auto&& v) { ret = v.set((int)val.mag); }); return ret; }
     if (val.k == MVal::Str && direct == 1) { at(t, kc, [&](auto&& v) { ret = v.set(val.s); }); return ret; }
     if (val.k == MVal::Str && direct == 2 && val.s.find('\0') == std::string::npos) { const char* p = arena.keep(val.s); at(t, kc, [&](auto&& v) { ret = v.set(p); }); return ret; }
@@ -199,6 +203,7 @@ struct AjExec {
   bool do_add(const Target& t, bool kc, const MVal& val, uint8_t strkind) {
     bool ret = false;
     unsigned direct = strkind % 4;
+    if (exact_kinds && val.k == MVal::Str) direct = 99;
     if (val.k == MVal::Int && !val.neg && val.mag <= 1000000 && direct == 0) { at(t, kc, [&](auto&& v) { ret = v.add((int)val.mag); }); return ret; }
     if (val.k == MVal::Str && direct == 1) { at(t, kc, [&](auto&& v) { ret = v.add(val.s); }); return ret; }
     if (val.k == MVal::Str && direct == 2 && val.s.find('\0') == std::string::npos) { const char* p = arena.keep(val.s); at(t, kc, [&](auto&& v) { ret = v.add(p); }); return ret; }
